@@ -50,6 +50,9 @@ pub fn array(items: impl Into<schema::SchemaRef>) -> schema::Schema<schema::Type
 pub fn object() -> schema::Schema<schema::Type::object> {
     schema::Schema::object()
 }
+pub fn null() -> schema::Schema<schema::Type::null> {
+    schema::Schema::null()
+}
 pub fn anyOf(schemas: impl schema::SchemaList) -> schema::Schema<schema::Type::any> {
     schema::Schema::anyOf(schemas)
 }
